@@ -10,7 +10,7 @@ INFO = {
                   'rtamt.semantics.abstract_discrete_time_online_interpreter.update (per-update gap check)', 'rtamt.semantics.abstract_discrete_time_offline_interpreter.evaluate (loop over the time column)',
                   'rtamt.spec.abstract_specification.sampling_violation_counter / set_sampling_period / unit'],
     'bounds': {'quick': 'n+1 symbolic time-stamps, n<=4 gaps (not assumed monotone), symbolic tolerance in [0,1] (and the default 0.1); period x period unit x default unit in '
-                        '{(1,s,s),(500,ms,s),(500,ms,ms),(2,s,ms),(1,s,default),(250,us,ms)}; online, offline class, combined class via evaluate() and via update()',
+                        '{(1,s,s),(500,ms,s),(500,ms,ms),(2,s,ms),(1,s,default),(250,us,ms)}; online, offline class, combined class via evaluate() and via update(); one offline object evaluating two data sets',
                'thorough': 'n<=6 gaps, more period/unit combinations'},
     'outside': 'more than 6 gaps; float rounding at the tolerance boundary (time-stamps are reals)',
     'assumptions': ['P = period * U[period unit] / U[default unit]: the time-stamps are expressed in the default unit of the specification (README examples 5 and 6)'],
